@@ -234,6 +234,7 @@ def main(argv=None):
         report.selftest(ctx, mod)
         mod.run(ctx)
         pool.shutdown()
+        interp_pass(ctx, mod)
     except Vacuous as e:
         pool.shutdown()
         print("INTERNAL-ERROR: vacuous exploration: %s" % e)
@@ -306,11 +307,51 @@ def main(argv=None):
     return 1 if new else 0
 
 
+def mark_interp(mod, r):
+    """violations found with NUMBA_DISABLE_JIT=1 get their own signatures and a focus that replays in that mode"""
+    pre = mod.ID.lower() + ":"
+    for v in r.get("violations", []):
+        if ":jit-off:" not in v["sig"]:
+            v["sig"] = v["sig"].replace(pre, pre + "jit-off:", 1)
+            v["msg"] = "[NUMBA_DISABLE_JIT=1] " + str(v.get("msg"))
+        if isinstance(v.get("focus"), dict):
+            v["focus"]["jit"] = "off"
+    return r
+
+
+def interp_pass(ctx, mod):
+    """generic interpreted pass: modules that define interp_cases(tier) get those cases re-run in spawned interpreters with
+    NUMBA_DISABLE_JIT=1 (numba reads the switch at import time), i.e. with every @njit kernel executed as plain Python"""
+    if not hasattr(mod, "interp_cases"):
+        return
+    from . import subrun
+
+    cs = list(mod.interp_cases(ctx.tier))
+    results = subrun.run(mod.__name__, cs, {"NUMBA_DISABLE_JIT": "1"}, nproc=min(8, ctx.nproc))
+    n = 0
+    for r in results:
+        c = r.pop("_case")
+        ctx.add(dict(c, jit="off"), mark_interp(mod, r))
+        n += int(r.get("evaluations", 0))
+    if cs and not n:
+        raise Vacuous("interpreted pass evaluated nothing")
+    ctx.extra["jit_off_pass"] = {"cases": len(results), "evaluations": n}
+
+
 def replay(mod, pid, path):
     from . import pool
 
     rec = json.load(open(path))
-    res = pool.run_one(mod.run_case, rec["case"])
+    if isinstance(rec.get("case"), dict) and rec["case"].get("jit") == "off" and hasattr(mod, "interp_cases") and os.environ.get("NUMBA_DISABLE_JIT") != "1":
+        from . import subrun
+
+        case = {k: v for k, v in rec["case"].items() if k != "jit"}
+        res = mark_interp(mod, subrun.run(mod.__name__, [case], {"NUMBA_DISABLE_JIT": "1"}, nproc=1)[0])
+        for v in res.get("violations", ()):
+            if isinstance(v.get("focus"), dict):
+                v["focus"]["jit"] = "off"
+    else:
+        res = pool.run_one(mod.run_case, rec["case"])
     hits = [v for v in res.get("violations", ()) if rec.get("sig") in (None, v.get("sig"))]
     exact = [v for v in hits if rec.get("focus") is not None and canon_json(v.get("focus")) == canon_json(rec.get("focus"))]
     if exact:
